@@ -113,4 +113,4 @@ Section Model.
 End Model.
 
 (* which behaviour the current source tree has; flipped to [true] together with the fix in /repo *)
-Definition svrp_repaired : bool := false.
+Definition svrp_repaired : bool := true.  (* /repo carries the SVRP "fix:" commit 9849631 since 2026-10-01 *)
